@@ -2,5 +2,7 @@ import Props.C01
 import Props.C03
 import Props.C04
 import Props.C05
+import Props.C10
+import Props.C11
 import Props.C12
 import Props.C17
